@@ -521,6 +521,40 @@ def main():
 
     fact("usmErrorOids", "List (List Nat × String)", usm_errors, "[]")
 
+    def usm_error_pdus():
+        """tag octets of the PDU classes validate_usm_message looks into: the classes of an
+        `if not isinstance(<...>.data, (A, B)): return` guard at the top of the function;
+        no such guard = every PDU = the empty list"""
+        from puresnmp import pdu as P
+        from puresnmp_plugins.security import usm
+
+        fn = func_ast(usm.validate_usm_message)
+        body = [n for n in fn.body if not (isinstance(n, ast.Expr) and isinstance(n.value, ast.Constant))]
+        first = body[0]
+        if not isinstance(first, ast.If):
+            return "[]"
+        t = first.test
+        if not (
+            isinstance(t, ast.UnaryOp) and isinstance(t.op, ast.Not) and isinstance(t.operand, ast.Call)
+            and getattr(t.operand.func, "id", None) == "isinstance" and len(first.body) == 1
+            and isinstance(first.body[0], ast.Return) and first.body[0].value is None and not first.orelse
+        ):  # fmt: skip
+            raise Untranslatable("unknown guard at the top of validate_usm_message")
+        subject = ast.unparse(t.operand.args[0])
+        if subject != "message.scoped_pdu.data":
+            raise Untranslatable(f"guard on {subject}")
+        classes = t.operand.args[1]
+        names = [e.id for e in classes.elts] if isinstance(classes, ast.Tuple) else [classes.id]
+        tags = []
+        for n in names:
+            cls = getattr(usm, n, None) or getattr(P, n)
+            tags.append(int(bytes(cls(P.PDUContent(0, [])))[0]))
+        if not tags:
+            raise Untranslatable("empty class tuple")
+        return lean_list([str(x) for x in sorted(tags)])
+
+    fact("usmErrorPduTags", "List Nat", usm_error_pdus, "[]")
+
     def digest_placeholder():
         from puresnmp_plugins.security import usm
 
